@@ -85,8 +85,9 @@ class HeapMaintenance(Harness):
                  "order / clock tick with symbolic ttl in [1,3] / counter order + round), two ops for K = 2 and "
                  "for K = 3 limit orders, K = 4 limit orders with one cancel or tick; then a sweeping counter "
                  "order (limit with symbolic price, or market)",
-        "thorough": "K <= 4 with up to 2 ops, all kind mixes for K <= 3, plus K = 5,6,7 limit orders of volume 2 "
-                    "with one op (cancel of any order, or a counter order + round) before the sweep",
+        "thorough": "K <= 4 with up to 2 ops, all kind mixes for K <= 3, plus K = 5,6,7 limit orders of volume 1 "
+                    "with one op (cancel of any order, or a one-lot counter order + round) before a limit sweep for K lots "
+                    "at a solver-chosen price",
     }
     reach = ("nontrivial", "cancel-nonbest", "expired-some")
     agreement_runs = 16
@@ -118,10 +119,10 @@ class HeapMaintenance(Harness):
                                     "sweep_market": False})
         return out
 
-    def _round(self, g, m, recs, is_buy, tag, market):
+    def _round(self, g, m, recs, is_buy, tag, market, volume=None):
         """submit a counter order and run one real round; check the fills against the ranking."""
         live = [r for r in recs if not r["dead"] and r["left"] is not None]
-        sv = g.int(f"cv_{tag}", 1, VOL_HI * 8)
+        sv = volume if volume is not None else g.int(f"cv_{tag}", 1, VOL_HI * 8)
         co = new_order(g, f"c{tag}", is_buy=not is_buy, market=market, volume=sv)
         clog = m._add_order(co)
         logs = m._execution()
@@ -134,6 +135,19 @@ class HeapMaintenance(Harness):
                 got[rid] = got[rid] + x.volume
         if len(logs) >= 2:
             g.note("nontrivial")
+        if "C01" in self.props:
+            byid = {r["id"]: r for r in recs}
+            for x in logs:
+                r = byid.get(x.buy_order_id if is_buy else x.sell_order_id)
+                g.require(x.price == logs[0].price, "C01.one-price-per-round")
+                if r is not None and not r["is_market"]:
+                    g.require(x.price <= r["price"] if is_buy else x.price >= r["price"],
+                              "C01.price<=buy-limit" if is_buy else "C01.price>=sell-limit",
+                              "a resting order was filled at a price beyond its limit")
+                if not market:
+                    g.require(x.price >= co.price if is_buy else x.price <= co.price,
+                              "C01.price>=sell-limit" if is_buy else "C01.price<=buy-limit",
+                              "the incoming order was filled at a price beyond its limit")
         if "C02" in self.props:
             for a in recs:
                 for o in recs:
@@ -160,7 +174,7 @@ class HeapMaintenance(Harness):
         for i in range(K):
             mk = case["kinds"][i] == "1"
             ttl = g.int(f"ttl{i}", 1, 3) if with_ttl else None
-            o = new_order(g, str(i), is_buy=is_buy, market=mk, ttl=ttl, volume=2 if case["deep"] else None)
+            o = new_order(g, str(i), is_buy=is_buy, market=mk, ttl=ttl, volume=1 if case["deep"] else None)
             vol, price = o.volume, o.price
             log = m._add_order(o)
             m._execution()
@@ -176,7 +190,8 @@ class HeapMaintenance(Harness):
                         r["dead"] = True
                         g.note("expired-some")
             elif op == "R":
-                self._round(g, m, recs, is_buy, f"r{k}", market=False)
+                # deep books: a round that takes exactly one lot (touches only the top of the book)
+                self._round(g, m, recs, is_buy, f"r{k}", market=False, volume=1 if case["deep"] else None)
             else:
                 i = op[1]
                 best = m.buy_order_book.get_best_order() if is_buy else m.sell_order_book.get_best_order()
@@ -185,7 +200,8 @@ class HeapMaintenance(Harness):
                 m._cancel_order(Cancel(order=orders[i]))
                 m._execution()
                 recs[i]["dead"] = True
-        self._round(g, m, recs, is_buy, "x", market=case.get("sweep_market", False))
+        self._round(g, m, recs, is_buy, "x", market=case.get("sweep_market", False),
+                    volume=K if case["deep"] else None)
 
 
 class C02_OrderLaws(OrderLaws):
@@ -199,3 +215,8 @@ class C02_HeapMaintenance(HeapMaintenance):
 class C03_HeapMaintenance(HeapMaintenance):
     props = ("C03",)
     reach = ("nontrivial", "cancel-nonbest", "expired-some", "post:uncrossed-two-sided")
+
+
+class C01_HeapMaintenance(HeapMaintenance):
+    props = ("C01",)
+    reach = ("nontrivial", "cancel-nonbest")
